@@ -23,6 +23,8 @@ def families(tier, seed):
         ("G1-node-params-3-rows", dict(grid={"tau1": [1.0, 2.0, 4.0], "kk": [-0.5, -1.0, 0.25]}, param_map=node_map)),
         ("G2-edge-and-node", dict(grid={"w12": [0.5, 2.5, -1.0], "tau1": [1.0, 2.0, 4.0]}, param_map=edge_map)),
         ("G3-permuted-2x3", dict(grid={"tau1": [1.0, 4.0], "kk": [-0.5, -1.0, 0.25]}, param_map=node_map, permute=True)),
+        ("G3b-permuted-3x3-equal-lengths", dict(grid={"tau1": [1.0, 2.0, 4.0], "kk": [-0.5, -1.0, 0.25]}, param_map=node_map, permute=True)),
+        ("G14-zero-valued-rows", dict(grid={"tau1": [1.0, 2.0, 4.0, 3.0], "kk": [-0.5, 0.0, 0.25, 0.0]}, param_map=node_map)),
         ("G4-dataframe-nondefault-index", dict(grid={"tau1": [4.0, 1.0, 2.0, 3.0], "kk": [-0.5, -1.0, 0.25, 0.1]}, param_map=node_map,
                                                as_frame=[2, 0, 3, 1])),
         ("G5-edge-only-object-template", dict(grid={"w12": [0.5, 2.5, -1.0]}, param_map={"w12": edge_map["w12"]})),
@@ -80,7 +82,7 @@ def main():
     _results = driver.run_family(
         chk, "grid_search-vs-individual-runs", _cases, cases.case_fn, site="C17/grid_search",
         rule="a two-node circuit with distinct per-node parameters; grids over node parameters (one and two targets per key), edge "
-             "weights, mixed node+edge, a permuted 2x3 grid, a DataFrame grid with a shuffled index, a template passed as object with "
+             "weights, mixed node+edge, permuted 2x3 and 3x3 grids, rows with the value 0.0, a DataFrame grid with a shuffled index, a template passed as object with "
              "an edge attribute, an extrinsic input, two grid keys on different attributes (weight, delay) of one edge, two edges under one "
              "key, a circuit whose edges are built from an EdgeTemplate, the circuit given as the path of a YAML definition, two nodes sharing one NodeTemplate object with only one addressed, two edges "
              "converging on one variable with six grid rows; vectorize on and off; every row of the returned table against the spec trajectory "
